@@ -68,6 +68,9 @@ func c16(args []string) error {
 			case 4: // fails once, then a large html body
 				uri = p + "/flaky.html"
 				run.org.Route(h, uri, origin.Resp{Status: 500, Body: "oops"}, origin.Resp{Status: 200, Headers: htmlCT, BodyGen: &origin.BodyGen{Kind: "html", Size: 2200000, Seed: serial}})
+			case 5: // large body whose connection is cut after the part that is spooled to disk
+				uri = p + "/cut.txt"
+				run.org.Route(h, uri, origin.Resp{Status: 200, Headers: map[string]string{"Content-Type": "text/plain"}, BodyGen: &origin.BodyGen{Kind: "text", Size: 3000000, Seed: serial}, CutAfter: 2400000})
 			default: // page with assets on several hosts, one of them failing
 				uri = p + "/page.html"
 				var assets []string
